@@ -60,6 +60,17 @@ const char *gbuf_guard(const gbuf *g);
 void gbuf_free(gbuf *g);
 uint8_t gbuf_canary(size_t i);
 
+/* Allocation-failure injection (effective only in builds linked with the
+ * malloc wrappers; otherwise no-ops).  A handler brackets the LIBRARY call:
+ *   valloc_begin(fail_at);  r = libcall(...);  n = valloc_end(&live);
+ * fail_at = 1-based index of the allocation that returns NULL (0 = none);
+ * n = allocations attempted, live = blocks still allocated by the call. */
+void valloc_begin(long fail_at);
+long valloc_end(long *live);
+int valloc_available(void);
+/* fail_at requested by a trailing "@oom=k" argument of the case (0 if none) */
+long arg_oom(const vcase *c);
+
 /* Input buffer whose end is flush against an inaccessible page. */
 typedef struct { uint8_t *map; size_t maplen; uint8_t *p; size_t len; } gpage;
 gpage gpage_new(const uint8_t *src, size_t len);
